@@ -1,0 +1,94 @@
+//go:build verif
+
+// Contracts for the standard library functions (string, table, math, base).
+// Comment-only; read by /verif/engine. See contracts_verif.go.
+
+package lua
+
+// ---------------------------------------------------------------------------
+// host-function argument access (auxlib.go); arguments are reg[base .. top)
+// ---------------------------------------------------------------------------
+
+//@ trusted (*LState).TypeError
+//@ noreturn
+//@ trusted (*LState).ArgError
+//@ noreturn
+
+//@ define Inv_gfn(L *LState) bool = Inv_api(L) && L.G != nil && L.currentFrame != nil && L.currentFrame.Fn != nil
+//@ define arg(L *LState, n int) LValue = ite(base(L)+n-1 < top(L), L.reg.array[base(L)+n-1], LNil)
+//@ define nargs(L *LState) int = top(L) - base(L)
+//@ define pushed(L *LState, k int) LValue = L.reg.array[old(top(L)) + k]
+//@ define argsKept(L *LState) bool = base(L) == old(base(L)) && forall k int :: 0 <= k && k < old(top(L)) ==> L.reg.array[k] == old(L.reg.array[k])
+
+// ---------------------------------------------------------------------------
+// string library (stringlib.go) against the Lua 5.1 manual §5.4
+// ---------------------------------------------------------------------------
+
+// posrelat of lstrlib.c: negative positions count from the end, below the start they clamp to 0
+//@ define posrelat(p int, l int) int = ite(p >= 0, p, ite(l + p + 1 >= 0, l + p + 1, 0))
+
+//@ func luaIndex2StringIndex [C15]
+//@ noraise
+//@ ensures  start ==> result == max(posrelat(i, len(str)), 1) - 1
+//@ ensures  !start ==> result == min(posrelat(i, len(str)), len(str))
+//@ ensures  0 <= result
+//@ modifies nothing
+
+// string.sub(s, i [, j]): manual: "start at i and continue until j; i and j can be negative";
+// str_sub: start = max(posrelat(i),1), end = min(posrelat(j), len); s[start..end] if start <= end else ""
+//@ define subStart(i int, l int) int = max(posrelat(i, l), 1)
+//@ define subEnd(j int, l int) int = min(posrelat(j, l), l)
+
+//@ func strSub [C15]
+//@ requires Inv_gfn(L)
+//@ raises when !(isStr(arg(L, 1)) || isNum(arg(L, 1))) || !isNum(arg(L, 2)) || !(isNil(arg(L, 3)) || isNum(arg(L, 3))) || overflow(L.reg, top(L) + 1)
+//@ ensures  result == 1 && top(L) == old(top(L)) + 1 && argsKept(L)
+//@ ensures  old(isStr(arg(L, 1))) ==> pushed(L, 0) == old(mkStr(ite(subStart(f2i(num(arg(L, 2))), len(str(arg(L, 1)))) <= subEnd(ite(isNil(arg(L, 3)), -1, f2i(num(arg(L, 3)))), len(str(arg(L, 1)))), substr(str(arg(L, 1)), subStart(f2i(num(arg(L, 2))), len(str(arg(L, 1)))) - 1, subEnd(ite(isNil(arg(L, 3)), -1, f2i(num(arg(L, 3)))), len(str(arg(L, 1))))), "")))
+//@ modifies L.reg.array, L.reg.top, L.reg.array[*]
+
+//@ func strLen [C15]
+//@ requires Inv_gfn(L)
+//@ raises when !(isStr(arg(L, 1)) || isNum(arg(L, 1))) || overflow(L.reg, top(L) + 1)
+//@ ensures  result == 1 && top(L) == old(top(L)) + 1 && argsKept(L)
+//@ ensures  old(isStr(arg(L, 1))) ==> pushed(L, 0) == old(mkNum(i2f(len(str(arg(L, 1))))))
+//@ modifies L.reg.array, L.reg.top, L.reg.array[*]
+
+// string.byte(s [, i [, j]]): manual: "codes of s[i], ..., s[j]; default for i is 1; default for j is i".
+// str_byte: posi = posrelat(i), pose = posrelat(j or posi); posi = max(posi,1); pose = min(pose,l); n = pose-posi+1 or 0
+//@ define byteFrom(L *LState) int = posrelat(ite(isNil(arg(L, 2)), 1, f2i(num(arg(L, 2)))), len(str(arg(L, 1))))
+//@ define byteLo(L *LState) int = max(byteFrom(L), 1)
+//@ define byteHi(L *LState) int = min(posrelat(ite(isNil(arg(L, 3)), byteFrom(L), f2i(num(arg(L, 3)))), len(str(arg(L, 1)))), len(str(arg(L, 1))))
+//@ define byteCount(L *LState) int = ite(byteLo(L) > byteHi(L), 0, byteHi(L) - byteLo(L) + 1)
+
+//@ func strByte [C15]
+//@ requires Inv_gfn(L) && isStr(arg(L, 1))
+//@ raises when !(isNil(arg(L, 2)) || isNum(arg(L, 2))) || !(isNil(arg(L, 3)) || isNum(arg(L, 3))) || top(L) + byteCount(L) > cap(L.reg.array)
+//@ ensures  "count": result == old(byteCount(L)) && top(L) == old(top(L)) + result && argsKept(L)
+//@ ensures  "bytes": forall k int :: old(top(L)) <= k && k < top(L) ==> L.reg.array[k] == old(mkNum(i2f(sbyte(str(arg(L, 1)), byteLo(L) - 1 + k - top(L)))))
+//@ modifies L.reg.array, L.reg.top, L.reg.array[*]
+//@ loop 1 invariant Inv_gfn(L) && L.reg == old(L.reg) && base(L) == old(base(L)) && start <= i && i <= end && top(L) == old(top(L)) + i - start && cap(L.reg.array) >= old(cap(L.reg.array)) && arrSameOrFresh(L.reg)
+//@ loop 1 invariant forall k int :: 0 <= k && k < old(top(L)) ==> L.reg.array[k] == old(L.reg.array[k])
+//@ loop 1 invariant forall k int :: old(top(L)) <= k && k < top(L) ==> L.reg.array[k] == mkNum(i2f(sbyte(str, start + k - old(top(L)))))
+
+// string.find(s, pattern [, init [, plain]]) with plain == true (str_find_aux + lmemfind):
+// init = clamp(posrelat(init or 1) - 1, 0, len(s)); an empty pattern is found at init.
+//@ uninterp strindex(s string, p string) int
+//@ axiom strindex_range : forall s string, p string :: -1 <= strindex(s, p) && strindex(s, p) + len(p) <= len(s) || strindex(s, p) == -1
+//@ extern strings.Index
+//@ noraise
+//@ ensures result == strindex(s, substr) && -1 <= result && (result >= 0 ==> result + len(substr) <= len(s))
+//@ modifies nothing
+
+//@ define findInit(L *LState) int = min(max(posrelat(ite(isNil(arg(L, 3)), 1, f2i(num(arg(L, 3)))), len(str(arg(L, 1)))) - 1, 0), len(str(arg(L, 1))))
+//@ define findPos(L *LState) int = strindex(substr(str(arg(L, 1)), findInit(L), len(str(arg(L, 1)))), str(arg(L, 2)))
+
+//@ func strFind [C15]
+//@ requires Inv_gfn(L) && isStr(arg(L, 1)) && isStr(arg(L, 2)) && (isNil(arg(L, 3)) || isNum(arg(L, 3))) && nargs(L) <= 4
+//@ requires len(str(arg(L, 2))) == 0 || (nargs(L) == 4 && truthy(arg(L, 4)))
+//@ cut@"mds, err := pm.Find(pattern" the pattern-matching branch (non-plain find) is covered under C14, not here
+//@ raises when top(L) + 2 > cap(L.reg.array)
+//@ ensures  "empty": old(len(str(arg(L, 2))) == 0) ==> result == 2 && top(L) == old(top(L)) + 2 && pushed(L, 0) == old(mkNum(i2f(findInit(L) + 1))) && pushed(L, 1) == old(mkNum(i2f(findInit(L))))
+//@ ensures  "notfound": old(len(str(arg(L, 2))) > 0 && findPos(L) < 0) ==> result == 1 && top(L) == old(top(L)) + 1 && pushed(L, 0) == LNil
+//@ ensures  "found": old(len(str(arg(L, 2))) > 0 && findPos(L) >= 0) ==> result == 2 && top(L) == old(top(L)) + 2 && pushed(L, 0) == old(mkNum(i2f(findInit(L) + findPos(L)) + 1)) && pushed(L, 1) == old(mkNum(i2f(findInit(L) + findPos(L) + len(str(arg(L, 2))))))
+//@ ensures  argsKept(L)
+//@ modifies L.reg.array, L.reg.top, L.reg.array[*]
